@@ -193,22 +193,22 @@ pub fn run(rep: &mut Report, thorough: bool) {
     rep.stage("reference-runs", "each stream unsegmented and byte by byte", ss.len() as u64, t0);
     // pass 2: compositions
     let t0 = std::time::Instant::now();
-    let mut scen: Vec<(usize, Vec<usize>, Option<usize>, u32)> = Vec::new();
+    let mut scen: Vec<(usize, Vec<usize>, Option<usize>, u32, u8)> = Vec::new();
     for (si, (_, s)) in ss.iter().enumerate() {
         for c in cuts_of(s.len(), 1) {
-            scen.push((si, c.clone(), None, 1000));
+            scen.push((si, c.clone(), None, 1000, 0));
             // zero-length segment inserted at each boundary (before segment k)
             for k in 0..2 {
-                scen.push((si, c.clone(), Some(k), 1000));
+                scen.push((si, c.clone(), Some(k), 1000, 0));
             }
         }
         let two = thorough || si % 4 == 0;
         if two {
             for c in cuts_of(s.len(), 2) {
-                scen.push((si, c.clone(), None, 1000));
+                scen.push((si, c.clone(), None, 1000, 0));
                 if thorough {
                     for k in 0..3 {
-                        scen.push((si, c.clone(), Some(k), 1000));
+                        scen.push((si, c.clone(), Some(k), 1000, 0));
                     }
                 }
             }
@@ -219,8 +219,19 @@ pub fn run(rep: &mut Report, thorough: bool) {
     for (si, (_, s)) in ss.iter().enumerate() {
         if thorough || si % 3 == 0 {
             for c in cuts_of(s.len(), 1) {
-                scen.push((si, c.clone(), None, 0xffff_ffff - 5));
-                scen.push((si, c, None, 0xffff_ffff));
+                scen.push((si, c.clone(), None, 0xffff_ffff - 5, 0));
+                scen.push((si, c, None, 0xffff_ffff, 0));
+            }
+        }
+    }
+    // the same 1-cuts in frames as a NIC delivers them: short frames zero-padded to the 60-byte
+    // Ethernet minimum (segments of 1..5 bytes over IPv4), and every frame followed by a 7-byte
+    // trailer: bytes behind the IP datagram are not part of the stream
+    for (si, (_, s)) in ss.iter().enumerate() {
+        if thorough || si % 2 == 0 {
+            for c in cuts_of(s.len(), 1) {
+                scen.push((si, c.clone(), None, 1000, 1));
+                scen.push((si, c, None, 1000, 2));
             }
         }
     }
@@ -230,11 +241,21 @@ pub fn run(rep: &mut Report, thorough: bool) {
         scen.len() as u64,
         &opts,
         |i| {
-            let (si, cuts, empty_at, base) = &scen[i as usize];
-            segments(&f, ack, &ss[*si].1, cuts, *empty_at, *base).into_iter().map(Cmd::Frame).collect()
+            let (si, cuts, empty_at, base, pad) = &scen[i as usize];
+            segments(&f, ack, &ss[*si].1, cuts, *empty_at, *base)
+                .into_iter()
+                .map(|mut fr| {
+                    if *pad == 1 && fr.len() < 60 {
+                        fr.resize(60, 0);
+                    } else if *pad == 2 {
+                        fr.extend_from_slice(&[0xff; 7]);
+                    }
+                    Cmd::Frame(fr)
+                })
+                .collect()
         },
         |it: &Item, sk: &mut Sink| {
-            let (si, cuts, empty_at, _base) = &scen[it.idx as usize];
+            let (si, cuts, empty_at, _base, _pad) = &scen[it.idx as usize];
             let model = Model::new();
             engine::judge_item(&cfg, &model, &cookies, it, it.cmds.len(), "compositions", sk);
             sk.count("frames", it.cmds.len() as u64 - 1);
@@ -294,7 +315,7 @@ pub fn run(rep: &mut Report, thorough: bool) {
         &mut rep.sink,
     );
     rep.transitions += scen.len() as u64;
-    rep.stage("compositions", "streams x (every 1-cut [x zero-length insertion], every 2-cut of the selected streams, every 1-cut again with sequence numbers wrapping past 2^32 inside the request)", scen.len() as u64, t0);
+    rep.stage("compositions", "streams x (every 1-cut [x zero-length insertion], every 2-cut of the selected streams, every 1-cut again in frames zero-padded to 60 bytes / followed by a 7-byte trailer, every 1-cut again with sequence numbers wrapping past 2^32 inside the request)", scen.len() as u64, t0);
     parser_bfs(rep, &cfg, &f, ack, &cookies, thorough);
 }
 
